@@ -9,6 +9,7 @@ import (
 	"time"
 
 	"verif/mc/explore"
+	"verif/mc/sim"
 )
 
 func usage() {
@@ -30,6 +31,10 @@ func main() {
 			usage()
 		}
 		os.Exit(replay(os.Args[2]))
+	case "script":
+		// check script <suite> <event>;<event>;...   (dev aid for writing seeds)
+		script(os.Args[2], os.Args[3:])
+		return
 	case "suite":
 		if len(os.Args) < 3 {
 			usage()
@@ -95,5 +100,58 @@ func devSuite(name string, secs int) {
 		for _, e := range f.Events {
 			fmt.Println("    ", e)
 		}
+	}
+}
+
+func script(suite string, args []string) {
+	s := lookupSuite(suite)
+	if s == nil {
+		fmt.Println("unknown suite", suite)
+		os.Exit(2)
+	}
+	x, v := explore.NewExec(s)
+	defer x.Close()
+	if v != nil {
+		fmt.Println("VIOLATION in seed:", v)
+		return
+	}
+	x.C.B.Deviations = -1
+	for _, a := range strings.Split(strings.Join(args, " "), ";") {
+		a = strings.TrimSpace(a)
+		if a == "" {
+			continue
+		}
+		if a == "dump" {
+			fmt.Print(x.C.Dump())
+			continue
+		}
+		e, err := sim.ParseEvent(a)
+		if err != nil {
+			fmt.Println(err)
+			return
+		}
+		v, err := x.Apply(e)
+		fmt.Println("APPLIED", e, "err:", err)
+		if v != nil {
+			fmt.Println("VIOLATION", v.Property, v.Signature, v.Detail)
+			return
+		}
+		if err != nil {
+			break
+		}
+	}
+	for i := range x.C.Nodes {
+		if vw, ok := x.C.View(i); ok {
+			fmt.Printf("  n%d state=%d term=%d voted=%q commit=%d applied=%d log=", i, vw.State, vw.Term, vw.VotedFor, vw.CommitIndex, vw.LastApplied)
+			for _, e := range x.C.Nodes[i].Log.Entries[1:] {
+				fmt.Printf("%d/%d ", e.Index, e.Term)
+			}
+			fmt.Println()
+		} else {
+			fmt.Printf("  n%d down\n", i)
+		}
+	}
+	for _, e := range x.C.Enabled() {
+		fmt.Println("  ENABLED", e)
 	}
 }
